@@ -171,7 +171,7 @@ def check(ctx):
             fn = kw(rt, "transition_fn", 1)
             if keys is not None and keys[0] == "list" and len(keys[1]) == 1 and fn and fn[0] == "fn":
                 inner = repo.functions.get(fn[1])
-                ri = evaluate(repo, inner, closure=dict(res.env.vars)).ret() if inner else None
+                ri = evaluate(repo, inner, closure=res.closure()).ret() if inner else None
                 ok = (ri is not None and ri[0] == "dict" and len(ri[1]) == 1
                       and ri[1][0][0] == keys[1][0])
                 detail = f"registered {short(keys)}; returns {short(ri or ())}"
